@@ -11,7 +11,7 @@ ID = 'C02'
 SHARDS_THOROUGH = 16
 SHARDS_QUICK = 4
 KNOWN_HEADERS = {'**mens', '**kern', '**text', '**harm', '**mxhm', '**root', '**dyn', '**dynam', '**fing'}
-RULE = ('(a) EXHAUSTIVE spine-operator layouts: from 1-3 spines (three header mixes incl. an unknown **foo type), every '
+RULE = ('(a) EXHAUSTIVE spine-operator layouts: from 1-3 spines (five header mixes incl. repeated types and an unknown **foo type), every '
         'legal operator row (each path one of *, *^, *-, or member of a *v run of length >=2 inside its spine, at least '
         'one real operator, width <=5) from every reachable state, a labelled data row between operator rows, closed by '
         'terminators: depth <=2 completely in the quick tier (+ a seed-dependent stride of depth 3), depth <=3 '
@@ -27,7 +27,7 @@ ASSUMPTIONS = ['kv/spine.py implements the Humdrum spine-path rules stated in th
                'a barline token\'s encoding is the cell text without the measure number (C03 states this normalisation)',
                'global comments are not cells: they form one single-node stage each and are skipped when looking for '
                'the cell above']
-MIXES = (['**kern'], ['**text', '**kern'], ['**kern', '**foo', '**text'])
+MIXES = (['**kern'], ['**text', '**kern'], ['**kern', '**kern'], ['**kern', '**foo', '**text'], ['**text', '**text', '**kern'])
 W = 5
 
 
@@ -131,6 +131,22 @@ def check(case):
     except Exception as e:  # noqa
         raise Bad('import-raised', f'{type(e).__name__}: {e}\n{text}')
     a = tree_check(doc, text, kdoc, len(lines))
+    if case.get('file'):
+        # the same text through the file reader
+        import os
+        import tempfile
+        with tempfile.TemporaryDirectory(prefix='kv_c02_') as td:
+            path = os.path.join(td, 'x.krn')
+            with open(path, 'w', encoding='utf-8', newline='') as f:
+                f.write(text)
+            try:
+                fdoc, ferrs = kp.load(path)
+            except Exception as e:  # noqa
+                raise Bad('file-import-raised', f'load(file) {type(e).__name__}: {e}\n{text}')
+        try:
+            tree_check(doc, text, fdoc, len(lines))
+        except Bad as b:
+            raise Bad('file-' + b.sig, 'through kernpy.load(file): ' + b.detail)
     nt = (a.has_split and a.has_join) or any(special(c['t']) for _, _, c in S.cells(doc) if c['k'] in ('text', 'lit'))
     return Result(nontrivial=nt, classes=K.doc_classes(doc, a) + (['blank-lines'] if blanks else []) + [case.get('src', 'random')],
                   sample=text, key=text)
@@ -271,6 +287,7 @@ def random_cases(draw, kind):
         case['nl'] = '\r\n'
     if draw(st.integers(0, 3)) == 0:
         case['final'] = False
+    case['file'] = draw(st.booleans())
     return case
 
 
@@ -290,7 +307,7 @@ def run(ctx):
     ctx.run_hypothesis(random_cases('literal'), check, max_examples=n, salt=2, label='literal')
     ctx.run_hypothesis(surplus_cases(), check, max_examples=max(30, n // 3), salt=3, label='surplus')
     ctx.rec.exhaustive = True
-    ctx.rec.notes['exhaustive_part'] = 'spine-operator layouts to depth %d over 3 header mixes, width <=5' % (2 if ctx.quick else 3)
+    ctx.rec.notes['exhaustive_part'] = 'spine-operator layouts to depth %d over 5 header mixes, width <=5' % (2 if ctx.quick else 3)
 
 
 def replay(case):
